@@ -568,12 +568,16 @@ def run_sign_prefix(ctx, i):
   pa = ['model.ckpt-', 'ckpt.', 'run+', 'v1.5-', 'plain_'][(i // 4) % 5]
   order = [[('a', 5, 1), ('a', 10, 1), ('a', 11, 1)], [('a', 1, 2), ('a', 2, 2), ('a', 10, 2), ('a', 30, 2)],
            [('a', 8, 1), ('a', 9, 1), ('a', 10, 1), ('a', 100, 1)]][(i // 20) % 3]
-  desc = dict(backend=backend, io=io, prefix=pa, order=order)
+  # the directory as the caller spells it: legal, not normalised
+  spelling = ['{b}/c', '{b}/./c', '{b}//c', '{b}/c/../c', '{b}/c/'][(i // 5) % 5]
+  desc = dict(backend=backend, io=io, prefix=pa, order=order, directory_spelling=spelling)
   sfx = '' if pa == 'plain_' else ':prefix_ends_in_sign_char'
   with ctx.case('sign_prefix', i, desc, nontrivial=pa != 'plain_'):
     base = tempfile.mkdtemp(prefix='vf-c11s-')
+    os.makedirs(os.path.join(base, 'c'))
+    d_spelled = spelling.format(b=base)
     try:
-      st, trace, err = crash.fork_run(lambda: child_two_prefixes(base, backend, io, pa, 'zz_other_', order))
+      st, trace, err = crash.fork_run(lambda: child_two_prefixes(d_spelled, backend, io, pa, 'zz_other_', order))
       if trace is None:
         ctx.check(False, 'prefixes.child_failed' + sfx, dict(case=desc, error=err))
         return
@@ -620,5 +624,5 @@ def run(ctx):
     run_async(ctx, hi, hist)
   for i in ctx.indices(16 if ctx.tier == 'quick' else 48, 'two_prefixes'):
     run_two_prefixes(ctx, i)
-  for i in ctx.indices(20 if ctx.tier == 'quick' else 60, 'sign_prefix'):
+  for i in ctx.indices(50 if ctx.tier == 'quick' else 150, 'sign_prefix'):
     run_sign_prefix(ctx, i)
